@@ -211,12 +211,6 @@ def ignore_line_ranges(source):
     return sorted(res)
 
 
-def regex_ignore_line_ranges(source):
-    """Physical lines whose raw text matches the ignore regex, comment or not (the pre-776bcb9 reading; used by the
-    signature predicate of the recorded item F14-18 only)."""
-    return [(a, b) for (a, b, t) in physical_lines(source) if IGNORE_RE.search(t)]
-
-
 def tokenizer_verdict(source):
     """The model's `coms` input: zero-based numbers of the physical lines that carry a COMMENT token matching the
     ignore regex, by CPython's tokenizer fed with the untranslated lines; None when it raises (the textual test
@@ -559,30 +553,8 @@ def sig_replacement_precedence_lost(mods, case) -> bool:
     return bool(v) and v[1] != v[0] and v[2] == v[0]
 
 
-SPLITLINES_EXTRA = re.compile("[\x0b\x0c\x1c\x1d\x1e\x85\u2028\u2029]|\r(?!\n)")
-
-
 def _expected(mods, case):
     return expected_applied(all_matches(mods, case["pattern"], case["source"]), case["source"], case["count"])
-
-
-def sig_line_separator_in_source(mods, case) -> bool:
-    """The source has a character at which str.splitlines splits but which is no line end for python
-    (form feed, U+2028, \x1c-\x1e, \x85, \v) or a lone carriage return: every line-based step
-    (has_ignore_comment, indentation of the matched line, rstrip per line) sees other lines."""
-    return bool(SPLITLINES_EXTRA.search(case["source"]))
-
-
-def sig_ignore_text_in_string(mods, case) -> bool:
-    """The ignore regex matches text of the source that is not a comment (inside a string literal) on a
-    line that an expected match touches."""
-    src = case["source"]
-    real = set(ignore_line_ranges(src))
-    for (a, b, t) in physical_lines(src):
-        if IGNORE_RE.search(t) and (a, b) not in real:
-            return True
-    # a string token spanning several lines whose content matches
-    return any(IGNORE_RE.search(src[a:b]) for (a, b) in regex_ignore_line_ranges(src) if (a, b) not in real)
 
 
 def sig_string_line_trailing_blank(mods, case) -> bool:
@@ -652,8 +624,6 @@ def sig_comment_ends_replacement(mods, case) -> bool:
 
 SIGS = {"binding_precedence_lost": sig_binding_precedence_lost,
         "replacement_precedence_lost": sig_replacement_precedence_lost,
-        "line_separator_in_source": sig_line_separator_in_source,
-        "ignore_text_in_string": sig_ignore_text_in_string,
         "string_line_trailing_blank": sig_string_line_trailing_blank,
         "fstring_debug_specifier": sig_fstring_debug_specifier,
         "elif_clause_matched": sig_elif_clause_matched,
@@ -1376,9 +1346,6 @@ WITNESSES = {
     "F14-7": [("f()", "g()  # c", "y = f() + 1\n", 0)],
     "F14-8": [("x", "y", "f'{x=}'\n", 0)],
     "F14-9": [("if {{c}}:\n    {{b}}", "if not {{c}}:\n    {{b}}", "if a:\n    p()\nelif b:\n    q()\n", 0)],
-    "F14-17": [("x = 1", "x = 2", "x = 1 \x0c # pyrefact: ignore\n", 0),
-               ("x = 1", "x = 2\ny = 3", "if c:\r    x = 1\r", 0)],
-    "F14-18": [("f()", "g()", "s = \'\'\'\n# pyrefact: ignore\'\'\'; f()\n", 0)],
     "F14-19": [("x = {{a}}", "y = {{a}}", "x = \'\'\'a \nb\'\'\'\n", 0)],
 }
 
@@ -1839,7 +1806,8 @@ def check(run: common.Run):
         cli_runs=n_cli,
         distinct_nontrivial=len(distinct) + g_nontrivial,
         rule=("subn correspondence: real pattern_matching.subn (instrumented: yielded items, schedule, text after "
-              "the _do_rewrite chain, returned count) vs SubstModel on (pattern, replacement, source, count); the "
+              "the last _do_rewrite(scheduled=True) call of _apply_rewrites, returned count; ignore lines = real "
+              "has_ignore_comment per physical line) vs SubstModel on (pattern, replacement, source, count); the "
               "matcher's matches (finditer order, ranges, unparsed bindings) and the observed is_valid_python "
               "answers are inputs of the model. Fixed family = 15 patterns (8 expression, 7 statement / statement "
               "sequence) x 10-14 replacements (wildcards used 0/1/2x, swapped, {{root}}, multi-line, empty, "
@@ -1871,15 +1839,20 @@ def check(run: common.Run):
             "matches are inputs of the model (properties C12 / C13)",
             "tokenisation of the expression fragment (regex tokenizer of harness/c14.py) and the tree <-> ast "
             "converters e_ast / ast_e",
-            "core.is_valid_python is an oracle of the model: its observed answers are replayed (table)",
+            "core.is_valid_python and processing._sources_equivalent are oracles of the model: their observed answers are "
+            "replayed (tables; the text is evaluated under both defaults for questions never asked)",
+            "the tokenizer's verdict on ignore comments (lines with a COMMENT token matching the regex) is an input of "
+            "the model, computed by the harness with CPython's tokenize; the model's ignore lines are compared with the "
+            "real core.has_ignore_comment asked about every physical line",
             "Uint63 primitive integers are used only to read case files (text_of_packed), never in a theorem"],
         unmodelled=[
             "processing.minimize_whitespace_line_differences (difflib): identity unless a whitespace-only line is "
             "added/removed; cases where it acted are judged by the property oracle only",
             "processing._substitute_original_strings/_fstrings: abstract function `restore` (hypothesis restore s s "
             "= s of T14.1 is checked on every source)",
-            "callable slots {{f(x)}} of format_template; ast-valued rewrites of _do_rewrite; tabs and non-ASCII "
-            "text (get_charnos is C13)"],
+            "callable slots {{f(x)}} of format_template; ast-valued rewrites of _do_rewrite and its unscheduled "
+            "(scheduled=False) refusals, which subn never reaches; a range beyond the end of the source; tabs, \\r and "
+            "non-ASCII text in the correspondence (oracle only; get_charnos is C13)"],
     )
     run.assumptions += [
         "the theorems are about SubstModel.v / ExprModel.v; the tie to pattern_matching.py / processing.py / "
